@@ -672,6 +672,18 @@ def check_trace(case, rec):
                 rec.close('unpolarized-is-mean', iu[fin], 0.5 * (ia[fin] + ib[fin]), TOL, scale=sc,
                           msg='coated lens: unpolarized intensity != mean of the intensities of two orthogonal states')
             last = (a, b, ia, ib)
+        # the NAMED orthogonal pairs as well (circular states carry a relative phase of 90 deg)
+        for na_, nb_ in (('H', 'V'), ('L+45', 'L-45'), ('RCP', 'LCP')):
+            ra = _trace(lens, case, create_polarization(na_))
+            rb = _trace(lens, case, create_polarization(nb_))
+            ia, ib = np.array(ra.i, float), np.array(rb.i, float)
+            ntr += 2 * ra.x.size
+            fin = fin_u & _finite_mask(ra) & _finite_mask(rb)
+            if fin.any():
+                sc = np.maximum(1.0, np.maximum(np.abs(iu[fin]), np.maximum(np.abs(ia[fin]), np.abs(ib[fin]))))
+                rec.close('unpolarized-is-mean', iu[fin], 0.5 * (ia[fin] + ib[fin]), TOL, scale=sc,
+                          key=f'unpolarized-is-mean:named-pair-{na_}/{nb_}',
+                          msg=f'coated lens: unpolarized intensity != mean of the intensities of the named states {na_} and {nb_}')
         cts = [('fresnel' if s.get('coating') == 'fresnel' else 'simple' if s.get('coating') else 'none') for s in optical]
         rec.cls('coat-all-fresnel' if all(c == 'fresnel' for c in cts) else
                 'coat-mixed-fresnel+simple' if ('fresnel' in cts and 'simple' in cts) else
